@@ -290,7 +290,11 @@ def judge(it, res):
 
 
 def classify(it, v):
-    if it["kind"] in ("reexport", "reexport-ns"):
+    # the recorded finding is specific: the single-file program is accepted and RUNS, the layout with a from-import
+    # of a re-exported name is REJECTED at compile time (name resolution: "Cannot find .. in namespace ..").  Any
+    # other disagreement in these families (different run, different error class, rejected single file) is new.
+    if it["kind"] in ("reexport", "reexport-ns") and v and v.startswith("single file ('OK'") \
+            and "multi-file layout ('ERR', 'Compile')" in v:
         return "from-import-of-reexport-depends-on-module-order"
     return None
 
